@@ -419,3 +419,77 @@ def colnames_driver(run):
         ok = d.colnames == new and [list(d[c]) for c in new] == vals
         ok = ok and all(getattr(d, c) is d[c] for c in new) and all((c in new) or not hasattr(d, c) for c in old)
         run.check([old, new, nrow], ok, expected=list(zip(new, vals)), got={c: list(d[c]) for c in d.colnames}, clause="positional rename in place")
+
+
+# ---- C01: histories of in-place operations ----------------------------------------------------------
+def wf_ok(d):
+    cols = list(d.values())
+    if not all(isinstance(c, DataFrameColumn) and c.ndim == 1 for c in cols):
+        return "not all columns are 1-D DataFrameColumns"
+    if len({len(c) for c in cols}) > 1:
+        return "column lengths differ"
+    if list(d.keys()) != list(dict.fromkeys(d.keys())):
+        return "duplicate names"
+    for k in d:
+        if k.isidentifier() and k not in dir(DataFrame()) and getattr(d, k) is not d[k]:
+            return f"attribute {k} is not the column"
+    for k in ("a", "b", "x1", "zz"):
+        if k not in d and hasattr(d, k):
+            return f"removed/absent name {k} still reachable by attribute"
+    return None
+
+
+C01_OPS = {
+    "set_a_vec": lambda d: d.__setitem__("a", list(range(d.nrow)) if d.nrow else [1, 2]),
+    "set_b_scalar": lambda d: d.__setitem__("b", 7),
+    "setattr_x1": lambda d: setattr(d, "x1", 0.5),
+    "set_items": lambda d: d.__setitem__("items", 1),
+    "set_bad_len": lambda d: d.__setitem__("zz", list(range(d.nrow + 2))),
+    "del_a": lambda d: d.__delitem__("a"),
+    "delattr_b": lambda d: delattr(d, "b"),
+    "pop_x1": lambda d: d.pop("x1"),
+    "popitem": lambda d: d.popitem(),
+    "colnames_rev": lambda d: setattr(d, "colnames", list(reversed(d.colnames))),
+    "colnames_fresh": lambda d: setattr(d, "colnames", [f"n{i}" for i in range(d.ncol)]),
+}
+
+
+@driver(P + "__init__[0 columns: ]")
+def c01_history_driver(run):
+    import itertools as it_
+    depth = 4 if run.tier == "thorough" else 3
+    run.bound = f"all sequences of <= {depth} in-place operations ({len(C01_OPS)} kinds) from DataFrame() and DataFrame(a=[1,2], b=[3,4])"
+    starts = {"empty": lambda: DataFrame(), "ab": lambda: DataFrame(a=[1, 2], b=["x", ""])}
+    gen = ((s, list(seq)) for s in starts for n in range(depth + 1) for seq in it_.product(C01_OPS, repeat=n))
+    for s, seq in run.inputs(gen):
+        d = starts[s]()
+        bad = None
+        for op in seq:
+            try:
+                C01_OPS[op](d)
+            except (KeyError, AttributeError, ValueError):
+                pass            # rejected operation: the frame must still be well-formed
+            bad = wf_ok(d)
+            if bad:
+                break
+        run.check([s, seq], bad is None, expected="well-formed and coherent after every step", got=bad, clause="wf/coh invariant")
+
+
+@driver(P + "__init__[2 columns: column,vector]")
+def c01_ctor_driver(run):
+    run.bound = "constructor with 2 values of shapes scalar / list of length 0-3 / Vector / DataFrameColumn"
+    shapes = {"scalar": lambda n: 5, "list": lambda n: list(range(n)), "vec": lambda n: Vector(list(range(n)), float),
+              "col": lambda n: DataFrameColumn(list(range(n)), float)}
+    gen = ((s1, n1, s2, n2) for s1 in shapes for n1 in range(4) for s2 in shapes for n2 in range(4))
+    for s1, n1, s2, n2 in run.inputs(gen):
+        l1 = 1 if s1 == "scalar" else n1
+        l2 = 1 if s2 == "scalar" else n2
+        nrow = max(l1, l2)
+        should = all(l == nrow or (l == 1 and nrow >= 1) for l in (l1, l2))
+        try:
+            d = DataFrame(a=shapes[s1](n1), b=shapes[s2](n2))
+            ok = should and d.nrow == nrow and wf_ok(d) is None and d.colnames == ["a", "b"]
+            obs = {c: list(d[c]) for c in d.colnames}
+        except ValueError as e:
+            ok, obs = not should, f"ValueError {e}"
+        run.check([s1, n1, s2, n2], ok, expected="accepted with broadcast" if should else "rejected", got=obs, clause="constructor")
